@@ -222,7 +222,7 @@ func quoteIdents(names []string) []string {
 
 func init() { regReplay("C18.expr", checkC18Expr) }
 
-var c18Idents = []string{"a", "b", "abc", "Total", "x1", "_y", "my var", "AND", "q\"t", "été"}
+var c18Idents = []string{"a", "b", "abc", "Total", "x1", "_y", "my var", "AND", "q\"t", "été", "qty[1]", "qty{1}", "r^", "r~", "k@", "k`"}
 
 func c18IdentGen(t *rapid.T, base string) string {
 	var sb strings.Builder
@@ -264,6 +264,17 @@ func TestC18_RapidExpressions(t *testing.T) {
 		}}
 	runRapid(t, pick(25000, 200000), 18, func(rt *rapid.T) {
 		tree := genSized(rt, cfg, rapid.SampledFrom([]int{1, 2, 3, 5, 8, 12, 20}).Draw(rt, "size"))
+		if rapid.IntRange(0, 14).Draw(rt, "manyvars") == 0 {
+			// many distinct variables, several of them used more than once (v1 .. v40)
+			k := rapid.IntRange(12, 40).Draw(rt, "nvars")
+			for i := 0; i < k+rapid.IntRange(2, 12).Draw(rt, "repeats"); i++ {
+				name := fmt.Sprintf("v%d", 1+i%k)
+				if i >= k {
+					name = fmt.Sprintf("v%d", rapid.IntRange(1, k).Draw(rt, "again"))
+				}
+				tree = &node{Op: rapid.SampledFrom([]string{"+", "-", "*"}).Draw(rt, "mvop"), Kids: []*node{tree, {Op: "var", Tok: name}}}
+			}
+		}
 		toks := printTokens(tree, rapid.IntRange(0, 2).Draw(rt, "style"), func() bool { return rapid.IntRange(0, 5).Draw(rt, "xp") == 0 })
 		c := c18ExprCase{Toks: toks, Text: spellRandom(rt, toks)}
 		npre := rapid.IntRange(0, 3).Draw(rt, "npre")
@@ -626,14 +637,25 @@ func init() { regReplay("C18.coll", checkC18Coll) }
 func TestC18_RapidCollections(t *testing.T) {
 	rec := evid.New("C18", "TestC18_RapidCollections", "C18.coll", c18Rule)
 	defer finish(t, rec)
-	names := []string{"a", "A", "b", "B", "ab", "Ab", "AB", "x"}
+	names := []string{"a", "A", "b", "B", "ab", "Ab", "AB", "x", "q[", "q{", "r^", "r~", "k@", "k`", "é", "É"}
 	opKinds := []string{"add", "add", "add", "find", "find", "locate", "remove", "removeByName", "clear", "clearValues"}
 	runRapid(t, pick(30000, 200000), 181818, func(rt *rapid.T) {
 		c := c18CollCase{Kind: rapid.SampledFrom([]string{"variables", "functions"}).Draw(rt, "kind")}
 		n := rapid.IntRange(1, 16).Draw(rt, "n")
+		long := rapid.IntRange(0, 19).Draw(rt, "long") == 0
+		if long {
+			n = rapid.IntRange(40, 160).Draw(rt, "longn") // big collections: dozens of entries
+		}
 		removed, nt := false, false
 		for i := 0; i < n; i++ {
 			op := c18CollOp{Op: rapid.SampledFrom(opKinds).Draw(rt, "op"), Name: rapid.SampledFrom(names).Draw(rt, "name"), Idx: rapid.IntRange(0, 7).Draw(rt, "idx")}
+			if long {
+				op.Name = fmt.Sprintf("%s%d", rapid.SampledFrom([]string{"n", "N", "total", "Total"}).Draw(rt, "stem"), rapid.IntRange(1, 50).Draw(rt, "num"))
+				op.Idx = rapid.IntRange(0, 60).Draw(rt, "bigidx")
+				if op.Op == "clear" && rapid.IntRange(0, 3).Draw(rt, "keep") != 0 {
+					op.Op = "add"
+				}
+			}
 			if op.Op == "remove" || op.Op == "removeByName" {
 				removed = true
 			}
